@@ -9,6 +9,8 @@ ROOT = os.path.dirname(os.path.dirname(os.path.abspath(__file__)))
 sys.path.insert(0, ROOT)
 sys.path.insert(1, "/repo/src")
 
+from pyvc.runner import claimed_level, load_known  # noqa: E402
+
 NA = {
     "C37": "quantifies over interleavings of await points of several asyncio tasks; the verifier has a sequential semantics "
            "(DESIGN A7) and no contract available here can express 'for every schedule'. The frame facts that make "
@@ -40,7 +42,7 @@ def main():
             "replay_cmd_template": "./check --replay {path}",
             "engine": "pyvc",
             "level_claimed": {
-                "category": meta.get("level", "proof"),
+                "category": claimed_level(pid, meta, load_known()),
                 "text": meta["explanation"],
                 "design_ref": f"DESIGN.md section 5 {pid}",
             },
